@@ -68,6 +68,25 @@ type c10exec struct {
 	kinds    map[string]int
 }
 
+// the library must not write into a slice the caller passed in
+func (e *c10exec) argUnchanged(got []tensor.Range, orig []ref.Range, what string) {
+	for i := range orig {
+		if got[i].From != orig[i].From || got[i].To != orig[i].To {
+			e.k.Failf("%s modified the caller's index slice: position %d was %v and is now %v", what, i, orig[i], got[i])
+			return
+		}
+	}
+}
+
+func (e *c10exec) intsUnchanged(got, orig []int, what string) {
+	for i := range orig {
+		if got[i] != orig[i] {
+			e.k.Failf("%s modified the caller's shape slice: %v became %v", what, orig, got)
+			return
+		}
+	}
+}
+
 func (e *c10exec) garbageInts(s []int) {
 	for i := range s {
 		s[i] = []int{-7, 0, 1, 2, 5}[e.k.Rng.Intn(5)]
@@ -155,6 +174,7 @@ func (e *c10exec) exec(in ref.Instr, xs []tensor.Tensor) (t tensor.Tensor, err e
 		case "slice":
 			idx := rt.Ranges(in.Index)
 			t, err = xs[0].Slice(idx)
+			e.argUnchanged(idx, in.Index, "Slice")
 			e.kinds["Slice"]++
 			if e.scribble {
 				e.garbageRanges(idx, xs[0].Shape())
@@ -162,6 +182,7 @@ func (e *c10exec) exec(in ref.Instr, xs []tensor.Tensor) (t tensor.Tensor, err e
 		case "patch":
 			idx := rt.Ranges(in.Index)
 			t, err = xs[0].Patch(idx, xs[1])
+			e.argUnchanged(idx, in.Index, "Patch")
 			e.kinds["Patch"]++
 			if e.scribble {
 				e.garbageRanges(idx, xs[0].Shape())
@@ -169,6 +190,7 @@ func (e *c10exec) exec(in ref.Instr, xs []tensor.Tensor) (t tensor.Tensor, err e
 		case "reshape":
 			shape := ref.CopyInts(in.Shape)
 			t, err = xs[0].Reshape(shape)
+			e.intsUnchanged(shape, in.Shape, "Reshape")
 			e.kinds["Reshape"]++
 			if e.scribble {
 				e.garbageInts(shape)
@@ -176,6 +198,7 @@ func (e *c10exec) exec(in ref.Instr, xs []tensor.Tensor) (t tensor.Tensor, err e
 		case "broadcast":
 			shape := ref.CopyInts(in.Shape)
 			t, err = xs[0].Broadcast(shape)
+			e.intsUnchanged(shape, in.Shape, "Broadcast")
 			e.kinds["Broadcast"]++
 			if e.scribble {
 				e.garbageInts(shape)
@@ -214,6 +237,9 @@ func c10GenOp(h *c08hist) (ref.Instr, bool) {
 	us := h.usable()
 	if len(us) == 0 || r.Intn(6) == 0 {
 		shape := RandShape(r, 0, 4, 3)
+		if r.Intn(6) == 0 {
+			shape = RandShape(r, 4, 6, 2)
+		}
 		if r.Intn(5) == 0 {
 			return ref.Instr{Op: "full", Shape: shape, F: 0.5 + r.Float64(), Tracked: r.Intn(3) > 0}, true
 		}
@@ -235,7 +261,32 @@ func c10GenOp(h *c08hist) (ref.Instr, bool) {
 		}
 		return c[r.Intn(len(c))], true
 	}
-	switch r.Intn(12) {
+	switch r.Intn(15) {
+	case 12: // MatMul / Dot: the receiver is used again afterwards by later steps
+		if rank >= 2 && len(v.Data) <= 36 {
+			if y, ok := compat(func(s []int) bool {
+				return len(s) == rank && s[rank-2] == v.Shape[rank-1] && ref.SameShape(s[:rank-2], v.Shape[:rank-2])
+			}); ok && maxAbs(v) < 10 && maxAbs(h.nodes[y].val) < 10 {
+				return ref.Instr{Op: "matmul", In: []int{x, y}}, true
+			}
+			return ref.Instr{Op: "transpose", In: []int{x}}, true
+		}
+		if y, ok := compat(func(s []int) bool { return ref.SameShape(s, v.Shape) }); ok && rank >= 1 && maxAbs(v) < 10 && maxAbs(h.nodes[y].val) < 10 {
+			return ref.Instr{Op: "dot", In: []int{x, y}}, true
+		}
+	case 13: // reductions whose backward rule is built from the operand alone (size-1 dimension), Pow(0)
+		if rank >= 1 {
+			dim := r.Intn(rank)
+			if v.Shape[dim] == 1 || fibresSeparated(v, dim, 1e-2) {
+				return ref.Instr{Op: []string{"varalong", "stdalong", "maxalong"}[r.Intn(3)], In: []int{x}, Dim: dim}, true
+			}
+		}
+		return ref.Instr{Op: "pow", In: []int{x}, F: 0}, true
+	case 14: // keepdims idiom on a higher-rank tensor
+		if rank >= 3 {
+			return ref.Instr{Op: []string{"sumalong", "meanalong"}[r.Intn(2)], In: []int{x}, Dim: r.Intn(rank)}, true
+		}
+		return ref.Instr{Op: "unsqueeze", In: []int{x}, Dim: r.Intn(rank + 1)}, true
 	case 0, 1:
 		if rank >= 1 {
 			idx := make([]ref.Range, r.Intn(rank+1))
